@@ -9,7 +9,6 @@ import (
 	"sync/atomic"
 	"time"
 
-
 	"verif/kit"
 )
 
